@@ -122,7 +122,7 @@ def snapshot(p, expand_limit: int = 60, with_expand: bool = True, with_chains: b
     cats: dict = {}
     for w in wlog:
         cats[w.category.__name__] = cats.get(w.category.__name__, 0) + 1
-    snap.append(["warnings", [], {"v": sorted(cats.items())}])
+    snap.append(["warnings", [], {"v": [list(x) for x in sorted(cats.items())]}])
     return snap
 
 
